@@ -14,6 +14,7 @@ from ml_pipeline_engine.dag_builders.annotation.marks import InputMark
 from ml_pipeline_engine.dag_builders.annotation.marks import InputOneOfMark
 from ml_pipeline_engine.dag_builders.annotation.marks import RecurrentSubGraphMark
 from ml_pipeline_engine.dag_builders.annotation.marks import SwitchCaseMark
+from ml_pipeline_engine.dag_builders.annotation.marks import get_annotations
 from ml_pipeline_engine.node import NodeTag
 from ml_pipeline_engine.node import NodeType
 from ml_pipeline_engine.node import generate_node_id
@@ -97,7 +98,7 @@ class AnnotationDAGBuilder:
         node = get_callable_run_method(node)
 
         inputs = []
-        for name, annotation in node.__annotations__.items():
+        for name, annotation in get_annotations(node).items():
 
             if isinstance(annotation, (InputGenericMark, GenericInputMark)):
                 raise errors.NonRedefinedGenericTypeError(
